@@ -175,8 +175,31 @@ func c12Cases(run *vx.Run) []c12Case {
 		}
 		return p
 	}
+	// strongly correlated colour channels (red and blue follow green, so the cross-colour transform finds non-zero
+	// multipliers in every noisy tile) interrupted by flat strips at the left edge, in the middle and across whole
+	// tile rows: single-valued residual tiles then directly follow tiles with non-zero multipliers in raster order,
+	// also at the first tile of a worker's range, where state carried from tile to tile must not depend on the split
+	correlated := func(w, h int) *image.NRGBA {
+		p := image.NewNRGBA(image.Rect(0, 0, w, h))
+		for y := 0; y < h; y++ {
+			for x := 0; x < w; x++ {
+				var r, g, b uint8
+				flat := x < 16 || (x >= w/2 && x < w/2+32) || (y/32)%5 == 3
+				if !flat {
+					g = uint8(rng.Intn(160))
+					r = uint8(int(g) * 3 / 2)
+					b = uint8(int(g)/2 + int(r)/4 + rng.Intn(3))
+				}
+				i := p.PixOffset(x, y)
+				p.Pix[i], p.Pix[i+1], p.Pix[i+2], p.Pix[i+3] = r, g, b, 255
+			}
+		}
+		return p
+	}
 	imgs := []im{
 		{"screenshot-512x512", screenshot(512, 512)},
+		{"correlated-256x256", correlated(256, 256)},
+		{"correlated-384x200", correlated(384, 200)},
 		{"tiles-400x300", repetitive(0, 400, 300)},
 		{"rows-400x300", repetitive(1, 400, 300)},
 		{"blocks-400x300", repetitive(2, 400, 300)},
